@@ -312,15 +312,25 @@ def _int_truth(l, op, r):
     def zero(x):
         return isinstance(x, ast.Constant) and x.value == 0 and not isinstance(x.value, bool)
 
-    flip = {ast.Lt: ast.Gt, ast.Gt: ast.Lt, ast.Eq: ast.Eq, ast.NotEq: ast.NotEq}
-    if is_int_attr(r) and zero(l) and type(op) in flip:
+    def one(x):
+        return isinstance(x, ast.Constant) and x.value == 1 and not isinstance(x.value, bool)
+
+    flip = {ast.Lt: ast.Gt, ast.Gt: ast.Lt, ast.LtE: ast.GtE, ast.GtE: ast.LtE, ast.Eq: ast.Eq, ast.NotEq: ast.NotEq}
+    if is_int_attr(r) and (zero(l) or one(l)) and type(op) in flip:
         l, r, op = r, l, flip[type(op)]()
-    if not (is_int_attr(l) and zero(r)):
+    if not is_int_attr(l):
         return None
-    if isinstance(op, ast.Eq):
-        return (l, False)
-    if isinstance(op, (ast.NotEq, ast.Gt)):
-        return (l, True)
+    # (the counters of INT_ATTRS are non-negative integers: `n > 0`, `n != 0`, `n >= 1` say "non-zero"; `n == 0`, `n <= 0`, `n < 1` say "zero")
+    if zero(r):
+        if isinstance(op, (ast.Eq, ast.LtE)):
+            return (l, False)
+        if isinstance(op, (ast.NotEq, ast.Gt)):
+            return (l, True)
+    if one(r):
+        if isinstance(op, ast.Lt):
+            return (l, False)
+        if isinstance(op, ast.GtE):
+            return (l, True)
     return None
 
 
@@ -347,6 +357,11 @@ def _fact_info(key: str):
 # conjuncts written out knows the predicate, and the other way round the rules can ask for the predicate whether the code calls the
 # property or spells the conjunction (a maintainer inlining the property changes nothing).  Each conjunct lists its accepted spellings.
 # The definition is checked against the code by C04/R04-e (truth table) whenever the property exists.
+# the waiter queues of the synchronisation primitives and memory streams (assumption A6)
+# queue -> positions of the pair that are objects the library itself creates (a Task, a Future, an Event, a receiver record); the
+# other position is user data (`_wait_queue` keys are arbitrary borrowers, `waiting_senders` values are the items being sent)
+WAITER_QUEUES = {"_waiters": (0, 1), "_wait_queue": (1,), "waiting_receivers": (0, 1), "waiting_senders": (0,)}
+
 # names the repository uses for validated integer counts (parameters `n`, `r`, `times`, `remaining` of anyio.itertools)
 INT_NAMES = {"n", "r", "times", "remaining", "repeat", "count"}
 
@@ -757,6 +772,14 @@ class Explorer:
             return out
         if node.kind != "stmt":
             return out
+        if isinstance(s, ast.Assign) and len(s.targets) == 1 and isinstance(s.targets[0], ast.Tuple) and isinstance(s.value, ast.Call) \
+                and isinstance(s.value.func, ast.Attribute) and s.value.func.attr in ("popleft", "popitem", "pop") \
+                and isinstance(s.value.func.value, ast.Attribute) and s.value.func.value.attr in WAITER_QUEUES \
+                and all(isinstance(e, ast.Name) for e in s.targets[0].elts):
+            # A6: what the waiter queues hold are pairs of real objects (task, future / event, receiver / borrower, event): every
+            # registration site the rules check puts such a pair in; None is never queued
+            pos = WAITER_QUEUES[s.value.func.value.attr]
+            return [(f"{e.id} is None", False) for i, e in enumerate(s.targets[0].elts) if i in pos]
         if isinstance(s, ast.Assign) and len(s.targets) == 1 and isinstance(s.targets[0], ast.Tuple) and isinstance(s.value, ast.Name) \
                 and all(isinstance(e, ast.Name) for e in s.targets[0].elts):
             # `a, b = pair`: what is known about pair[0] / pair[1] is known about a / b (and the pair itself is not None)
